@@ -281,6 +281,63 @@ def normalize_tree(tree: ast.AST) -> ast.AST:
             return ast.copy_location(new, node)
     tree = Clamp().visit(tree)
 
+    # iterator plumbing in front of `yield from`:
+    #   if c: V = A / else: V = B ; yield from V      (V used nowhere else)   is   if c: yield from A / else: yield from B
+    #   yield from chain(A, B, ..)                                              is   yield from A; yield from B; ..
+    #   yield from chain.from_iterable(E for t in I if c)                       is   for t in I: if c: yield from E
+    def yield_plumbing(body, fn_node):
+        out = []
+        i = 0
+        while i < len(body):
+            st = body[i]
+            for fld in ("body", "orelse", "finalbody"):
+                sub = getattr(st, fld, None)
+                if isinstance(sub, list) and sub and isinstance(sub[0], ast.stmt) and not isinstance(st, (ast.FunctionDef, ast.ClassDef)):
+                    setattr(st, fld, yield_plumbing(sub, fn_node))
+            for hnd in getattr(st, "handlers", []) or []:
+                hnd.body = yield_plumbing(hnd.body, fn_node)
+            nxt = body[i + 1] if i + 1 < len(body) else None
+            if (isinstance(st, ast.If) and st.orelse and isinstance(nxt, ast.Expr) and isinstance(nxt.value, ast.YieldFrom) and isinstance(nxt.value.value, ast.Name)):
+                v = nxt.value.value.id
+
+                def last_assign(blk):
+                    return blk and isinstance(blk[-1], ast.Assign) and len(blk[-1].targets) == 1 and isinstance(blk[-1].targets[0], ast.Name) and blk[-1].targets[0].id == v
+                uses = sum(1 for x in ast.walk(fn_node) if isinstance(x, ast.Name) and x.id == v and isinstance(x.ctx, ast.Load))
+                if last_assign(st.body) and last_assign(st.orelse) and uses == 1:
+                    for blk in (st.body, st.orelse):
+                        a = blk[-1]
+                        y = ast.copy_location(ast.Expr(value=ast.copy_location(ast.YieldFrom(value=a.value), a)), a)
+                        blk[-1] = y
+                    st.body = yield_plumbing(st.body, fn_node)
+                    st.orelse = yield_plumbing(st.orelse, fn_node)
+                    out.append(st)
+                    i += 2
+                    continue
+            if isinstance(st, ast.Expr) and isinstance(st.value, ast.YieldFrom) and isinstance(st.value.value, ast.Call):
+                c = st.value.value
+                fn_ = norm(c.func)
+                if fn_ in ("chain", "itertools.chain") and c.args and not c.keywords and not any(isinstance(a, ast.Starred) for a in c.args):
+                    for a in c.args:
+                        out.append(ast.copy_location(ast.Expr(value=ast.copy_location(ast.YieldFrom(value=a), st)), st))
+                    i += 1
+                    continue
+                if fn_ in ("chain.from_iterable", "itertools.chain.from_iterable") and len(c.args) == 1 and isinstance(c.args[0], (ast.GeneratorExp, ast.ListComp)) and len(c.args[0].generators) == 1:
+                    ge = c.args[0]
+                    g0 = ge.generators[0]
+                    inner = [ast.copy_location(ast.Expr(value=ast.copy_location(ast.YieldFrom(value=ge.elt), st)), st)]
+                    for cond in reversed(g0.ifs):
+                        inner = [ast.copy_location(ast.If(test=cond, body=inner, orelse=[]), st)]
+                    loop = ast.copy_location(ast.For(target=g0.target, iter=g0.iter, body=yield_plumbing(inner, fn_node), orelse=[]), st)
+                    out.append(loop)
+                    i += 1
+                    continue
+            out.append(st)
+            i += 1
+        # a second pass splits what the first one produced (chain inside a sunk yield)
+        return out
+    for fn in [n for n in ast.walk(tree) if isinstance(n, (ast.FunctionDef, ast.AsyncFunctionDef))]:
+        fn.body = yield_plumbing(yield_plumbing(fn.body, fn), fn)
+
     # `yield from (a, *b, c)` over a tuple / list display is `yield a; yield from b; yield c`
     def split_display(body):
         out = []
